@@ -12,7 +12,7 @@
     in memory when it was made ([exec_identity_ret]) and no instruction other than the CALL family
     and CREATE/CREATE2 changes a frame's return data ([returndata_stable_run]). *)
 From Coq Require Import List ZArith Bool.
-From Kardia Require Import C10.U256 C10.EVM Generated.C10Facts.
+From Kardia Require Import C10.U256 C10.EVM C10.ProofsGas Generated.C10Facts.
 Import ListNotations.
 Local Open Scope Z_scope.
 
@@ -25,3 +25,24 @@ Lemma identity_returndata_is_a_copy :
   exists g, c_status (run_call (fun _ => 0) (fun _ => 0) ex_env ex_world 49374 [] 100000 0)
             = Final OOk (word_bytes 7719472615821079694904732333912527190217998977709370935963838933860875309329) g.
 Proof. eexists. vm_compute. reflexivity. Qed.
+
+(** "Every stack value is a 256-bit word" does NOT hold for every configuration reachable in the sense
+    of [reachable_g] (any start world, any environment): the model copies environment values, balances,
+    code bytes, storage and hash results to the stack as they are.  Witness: gas price -1 in the
+    environment and the program GASPRICE; STOP — after one step the stack holds -1.  The statement that
+    is still open (Open.v) therefore carries the well-formedness of the start state as a hypothesis. *)
+Definition neg_price_env : env := mk_env 11184641 (-1) 203 10 1600000000 20000000 1337 true.
+Definition gasprice_world : world :=
+  mk_world [(49374, mk_account 1 0 [58; 0] [] false); (11184641, mk_account 1 1000 [] [] false)] [].
+
+Lemma stack_words_unconditional_refuted : forall keccak blockhash,
+    exists e c f x, reachable_g keccak blockhash e c /\ In f (c_frames c) /\ In x (f_stack f) /\ ~ is_word x.
+Proof.
+  intros keccak blockhash.
+  exists neg_price_env, (step keccak blockhash neg_price_env (init_call neg_price_env gasprice_world 49374 [] 100000 0)).
+  eexists. exists (-1).
+  split; [apply rg_step; apply rg_call; discriminate|].
+  split; [vm_compute; left; reflexivity|].
+  split; [left; reflexivity|].
+  unfold is_word. intros [H _]. apply H. reflexivity.
+Qed.
